@@ -285,6 +285,14 @@ func resolveCell(v ssa.Value) ssa.Value {
 				continue
 			}
 			return v
+		case *ssa.FieldAddr:
+			// field of a struct allocated in this function (possibly reached through single-assignment cells):
+			// exactly one store to that field of that object, in a block that dominates the load → the stored value
+			if sv := uniqueFieldStore(a, u); sv != nil {
+				v = sv
+				continue
+			}
+			return v
 		case *ssa.FreeVar:
 			// find the binding in the parent's MakeClosure
 			if b := freeVarBinding(a); b != nil {
@@ -830,4 +838,78 @@ func callsToDeep(fn *ssa.Function, depth int, ids ...string) []ssa.CallInstructi
 		}
 	}
 	return out
+}
+
+// uniqueFieldStore: fa addresses field F of an object allocated in the same function; when F of that
+// object is stored exactly once in the function, by a store whose block dominates the load, that value.
+func uniqueFieldStore(fa *ssa.FieldAddr, load *ssa.UnOp) ssa.Value {
+	base := fa.X
+	for i := 0; i < 4; i++ {
+		if u, ok := base.(*ssa.UnOp); ok && u.Op == token.MUL {
+			if al, isA := u.X.(*ssa.Alloc); isA {
+				st := storesTo(al)
+				if len(st) == 1 {
+					base = st[0].Val
+					continue
+				}
+			}
+		}
+		break
+	}
+	al, ok := base.(*ssa.Alloc)
+	if !ok || al.Parent() != load.Parent() {
+		return nil
+	}
+	var found *ssa.Store
+	n := 0
+	refs := al.Referrers()
+	if refs == nil {
+		return nil
+	}
+	var visit func(v ssa.Value, depth int)
+	visit = func(v ssa.Value, depth int) {
+		rs := v.Referrers()
+		if rs == nil || depth > 3 {
+			return
+		}
+		for _, r := range *rs {
+			switch x := r.(type) {
+			case *ssa.FieldAddr:
+				if x.X == v && x.Field == fa.Field {
+					if frs := x.Referrers(); frs != nil {
+						for _, fr := range *frs {
+							if st, isS := fr.(*ssa.Store); isS && st.Addr == ssa.Value(x) {
+								found = st
+								n++
+							}
+						}
+					}
+				}
+			case *ssa.Store:
+				// the object's address stored into a local cell: follow the cell's loads
+				if x.Val == v {
+					if cell, isA := x.Addr.(*ssa.Alloc); isA {
+						if crs := cell.Referrers(); crs != nil {
+							for _, cr := range *crs {
+								if ld, isL := cr.(*ssa.UnOp); isL && ld.Op == token.MUL && ld.X == ssa.Value(cell) {
+									visit(ld, depth+1)
+								}
+							}
+						}
+					}
+				}
+			}
+		}
+	}
+	visit(al, 0)
+	if n != 1 || found == nil {
+		return nil
+	}
+	if found.Block() != load.Block() && !found.Block().Dominates(load.Block()) {
+		return nil
+	}
+	if found.Block() == load.Block() && instrIndex(found) > instrIndex(load) {
+		return nil
+	}
+	return found.Val
 }
